@@ -163,7 +163,7 @@ fn inline_val(v: &oxidize_pdf::objects::Object) -> String {
         O::Integer(i) => format!("i{}", i),
         O::Real(r) => n32(*r as f32),
         O::Name(n) => nm(n),
-        O::String(s) => st(s.as_bytes()),
+        O::String(s) => if s.contains('\u{fffd}') { "s?".into() } else { st(s.as_bytes()) },
         O::Null => "null".into(),
         _ => "?".into(),
     }
@@ -964,13 +964,14 @@ fn tags(kind: &str, calls: &[String]) -> String {
 }
 
 fn soup(rng: &mut Rng) -> Vec<u8> {
-    let frags: [&[u8]; 60] = [
+    let frags: [&[u8]; 65] = [
         b"q", b"Q", b"BT", b"ET", b"1 0 0 1 50 50 cm", b"100 200 m", b"l", b"re", b"S", b"f", b"f*", b"B*", b"W*", b"n", b"T*",
         b"/F1 12 Tf", b"/F#31 1.5 Tf", b"(abc) Tj", b"(a\\(b\\)c) Tj", b"(a(b)c)", b"(\\101\\7\\78\\400)", b"(unterminated", b"<48 65 6C>", b"<4",
         b"<zz>", b"[(a) -50 (b) 1.5] TJ", b"[ <0041> ] TJ", b"[1 2] 0 d", b"[] 0 d", b"]", b"[", b"<<", b">>", b">",
         b"/P <</MCID 0>> BDC", b"/P <</MCID 1 /ActualText <FEFF0041> /A [1 (x) /n <</k 2.5>>]>> BDC", b"/Span /Props BDC", b"EMC", b"/T MP", b"BMC",
         b"0.5 g", b"1 0 0 RG", b"0 0 0 1 k", b"0.1 0.2 sc", b"/P1 scn", b"/Cs1 cs", b"/GS1 gs", b"/Im1 Do", b"/Sh1 sh", b"/Perceptual ri",
         b"% comment\n", b"%c\r", b";", b")", b"{", b"}", b"-", b".", b"+5", b"1.2.3",
+        b"BI /W 2 /H 1 /CS /G /BPC 8 /F /AHx ID 0AFF> EI", b"BI /W 1 /IM true /D [1 0] ID \x00\xff EI Q", b"ID", b"EI", b"BI",
     ];
     let mut v = vec![];
     let n = rng.below(14) as usize;
